@@ -928,7 +928,8 @@ func (r *resolver) findGrouping(y *Uses) (*Grouping, error) {
 				// issue #50 - submodules can reference types in parent and in any
 				// other submodule w/o prefix
 				if m, isModule := p.(*Module); isModule && m.belongsTo != nil {
-					p = m.Parent().(Definition)
+					// nil for a module that says belongs-to: it is nobody's submodule
+					p, _ = m.Parent().(Definition)
 				}
 			}
 		}
@@ -1056,8 +1057,12 @@ func (r *resolver) expandAugment(y *Augment, parent Meta) error {
 	}
 
 	for _, orig := range y.Actions() {
+		hasActions, valid := target.(HasActions)
+		if !valid {
+			return fmt.Errorf("%s - %T does not allow actions", SchemaPath(y), target)
+		}
 		d := orig.clone(target).(Definition)
-		if err := target.(HasActions).addAction(d.(*Rpc)); err != nil {
+		if err := hasActions.addAction(d.(*Rpc)); err != nil {
 			return err
 		}
 		if _, err := r.enter(d); err != nil {
@@ -1066,8 +1071,12 @@ func (r *resolver) expandAugment(y *Augment, parent Meta) error {
 	}
 
 	for _, orig := range y.Notifications() {
+		hasNotifs, valid := target.(HasNotifications)
+		if !valid {
+			return fmt.Errorf("%s - %T does not allow notifications", SchemaPath(y), target)
+		}
 		d := orig.clone(target).(Definition)
-		if err := target.(HasNotifications).addNotification(d.(*Notification)); err != nil {
+		if err := hasNotifs.addNotification(d.(*Notification)); err != nil {
 			return err
 		}
 		if _, err := r.enter(d); err != nil {
